@@ -55,6 +55,8 @@ class SetFlavour(E.MapFlavour):
         self.kk, self.vk = kinds[0], kinds[0]
 
     def prod(self, k):
+        if self.kk == "u":
+            return None if int(k) % 4 >= 2 else str((int(k) + 1) % E.U64)
         if self.kk == "i":
             return str(int(k) + 3000000) if int(k) < 5000000 else None
         return None if k.endswith("^^") else k + "^"
@@ -82,6 +84,13 @@ class SetFlavour(E.MapFlavour):
             return ["eim", K, str(rnd.choice([0, 2])), a]
         return ["eic", K, str(rnd.choice([0, 2])), a]
 
+    def pair_ops(self, rnd, k):
+        K, a = qt(k), qt(self.rand_val(rnd))
+        if self.multi:
+            return rnd.choice([[["insm", K], ["era", K]], [["era", K], ["insm", K]], [["insm", K], ["insm", K]]])
+        return rnd.choice([[["ins", K], ["era", K]], [["ins", K], ["eic", K, "0", a]], [["era", K], ["ins", K]],
+                           [["ieim", K, "0", a], ["era", K]], [["ins", K], ["eim", K, "0", a]]])
+
     def sweep_op(self, rnd, k):
         if self.multi:
             return ["insm", qt(k)]
@@ -93,6 +102,8 @@ class SetFlavour(E.MapFlavour):
         return rnd.choice([["ins", qt(k)], ["ieim", qt(k), "0", qt(self.rand_val(rnd))]])
 
     def rand_val(self, rnd):
+        if self.kk == "u":
+            return str(rnd.choice([0, 1 << 63, E.U64 - 1, (1 << 32) + 1, rnd.randrange(E.U64)]))
         return rnd.choice(["", "x", "yz", "arg", "q"]) if self.kk == "s" else str(rnd.randrange(0, 50))
 
     def heavy_ops(self, rnd, k, n):
@@ -246,7 +257,8 @@ class SetFlavour(E.MapFlavour):
                     "SetOps.count == count()", f"model {o} real {answers[0]}", block=bi, directive=d))
 
 
-FLAVOURS = [SetFlavour(w, k, v) for v in ("d", "g", "p") for w in ("set", "multiset") for k in ("s", "i")]
+FLAVOURS = ([SetFlavour(w, k, v) for v in ("d", "g", "p") for w in ("set", "multiset") for k in ("s", "i")]
+            + [SetFlavour(w, "u", "d") for w in ("set", "multiset")])
 ASSUME = ["every operation is executed exactly once, atomically, on owner(key) before the barrier returns (C01/C02/C08; Dist.Complete)",
           "std::hash is a parameter (owners are read from the real run); the order of elements inside std::multiset is not compared",
           "runs aborted by the messaging layer (comm.ipp assertion, deadlock) are C03's subject and are skipped here, counted in the distribution"]
